@@ -3,6 +3,7 @@
 use crate::c03::{gen_agg_query, gen_params};
 use crate::c08::render;
 use crate::common::*;
+use crate::c03::fq;
 use crate::ir::*;
 use crate::sqlite::*;
 use crate::world::*;
@@ -38,6 +39,21 @@ pub fn gen_dp_data(r: &mut Rng, specs: &[TableSpec], max_rows: i64, units_max: i
     if let Some(os) = d.get_mut("orders") { for o in os.iter_mut() { if !ids.is_empty() && r.chance(9, 10) { o[1] = r.pick(&ids).clone(); } } }
     let oids: Vec<SV> = d["orders"].iter().map(|r| r[0].clone()).collect();
     if let Some(is) = d.get_mut("items") { for i in is.iter_mut() { if !oids.is_empty() && r.chance(9, 10) { i[0] = r.pick(&oids).clone(); } } }
+    d
+}
+/// a fixed small database: user 1 owns the five largest amounts, two users share a score
+pub fn pinned_data() -> Data {
+    let t = |x: &str| SV::Text(x.into());
+    let mut d = Data::new();
+    d.insert("users".into(), vec![
+        vec![SV::Int(1), SV::Int(30), t("Paris"), SV::Real(100.0), SV::Real(2.5)], vec![SV::Int(2), SV::Int(40), t("Lyon"), SV::Real(200.0), SV::Real(2.5)],
+        vec![SV::Int(3), SV::Int(50), t("Nice"), SV::Real(300.0), SV::Real(1.0)], vec![SV::Int(4), SV::Int(25), t("Paris"), SV::Real(150.0), SV::Null]]);
+    let mut orders = vec![];
+    for (i, (u, a)) in [(1, 500.0), (1, 500.0), (1, 500.0), (1, 500.0), (1, 500.0), (2, 400.0), (2, 400.0), (3, 400.0), (3, 400.0), (4, 400.0)].iter().enumerate() {
+        orders.push(vec![SV::Int(i as i64 + 1), SV::Int(*u), SV::Real(*a), t(["new", "paid", "sent"][i % 3])]); }
+    d.insert("orders".into(), orders);
+    d.insert("items".into(), vec![vec![SV::Int(1), SV::Real(10.0), SV::Int(2)], vec![SV::Int(6), SV::Real(20.0), SV::Null], vec![SV::Int(8), SV::Real(30.0), SV::Int(2)]]);
+    d.insert("cities".into(), vec![vec![t("Paris"), SV::Int(10)], vec![t("Lyon"), SV::Int(20)]]);
     d
 }
 fn unit_hash(db: &Db, u: i64) -> String { match db.query(&format!("SELECT MD5(CAST({} AS TEXT))", u)) { Ok((_, rows)) => rows[0][0].canon(), Err(_) => String::new() } }
@@ -149,12 +165,16 @@ pub fn run_c01(outdir: &str, seed: u64, thorough: bool) -> serde_json::Value {
     let mut rng = Rng::new(seed ^ 0xC01);
     let mut st = Stats::default();
     let n = if thorough { 3000 } else { 120 };
+    let mut cases: Vec<String> = vec![]; let cap_cases = if thorough { 20000 } else { 1500 };
     let mut made = 0; let mut attempts = 0;
     while made < n && attempts < n * 30 {
         attempts += 1;
         let mut r = rng.fork();
-        let sql = if r.chance(1, 6) { let k = r.range(1, 6); format!("SELECT SUM(x.amount) AS s FROM (SELECT t.amount AS amount FROM orders AS t ORDER BY t.amount DESC LIMIT {}) AS x", k) } else { gen_agg_query(&mut r) };
-        let p: DpParameters = gen_params(&mut r);
+        let pinned = attempts == 1;
+        let sql = if pinned || r.chance(1, 6) { let k = if pinned { 5 } else { r.range(1, 6) }; format!("SELECT SUM(x.amount) AS s FROM (SELECT t.amount AS amount FROM orders AS t ORDER BY t.amount DESC LIMIT {}) AS x", k) } else { gen_agg_query(&mut r) };
+        // the number of groups per unit is not capped (the cap draws RANDOM() ranks, which two executions do not share)
+        let p: DpParameters = if pinned { DpParameters::from_epsilon_delta(1.0, 1e-5) } else { let q = gen_params(&mut r);
+            DpParameters::new(q.epsilon, q.delta, q.tau_thresholding_share, q.privacy_unit_max_multiplicity, q.privacy_unit_max_multiplicity_share, 1000) };
         let rel = match catch_unwind(AssertUnwindSafe(|| to_relation(&w, &sql))) { Ok(Ok(rel)) => rel, _ => continue };
         let rw = match catch_unwind(AssertUnwindSafe(|| rel.rewrite_with_differential_privacy(&w.relations, None, w.privacy_unit.clone(), p.clone()))) { Ok(Ok(rw)) => rw, _ => { st.bump("rewrite_failed"); continue; } };
         let sites: Vec<NoiseSite> = noise_sites(rw.relation()).into_iter().filter(|s| s.column != "_COUNT_DISTINCT_PID_").collect();
@@ -163,13 +183,33 @@ pub fn run_c01(outdir: &str, seed: u64, thorough: bool) -> serde_json::Value {
         let shape = shape_class(&rel);
         // the relation each noise is added to
         let mut inputs: Vec<(String, Vec<NoiseSite>)> = vec![];
-        for n in all_nodes(rw.relation()) { if let Relation::Map(m) = n { let here: Vec<NoiseSite> = sites.iter().filter(|s| s.map == m.name()).cloned().collect(); if !here.is_empty() { inputs.push((render(m.input()), here)); } } }
+        for n in all_nodes(rw.relation()) { if let Relation::Map(m) = n { let here: Vec<NoiseSite> = sites.iter().filter(|s| s.map == m.name()).cloned().collect(); if !here.is_empty() { inputs.push((set_noise(&render(m.input()), 1e9), here)); } } }
+        // the maps holding the _CLIPPED_<x> columns, for the correspondence with the clipping model
+        let mut clipmaps: Vec<(String, Vec<String>, String, f64, Vec<String>)> = vec![];
+        for n in all_nodes(rw.relation()) { if let Relation::Map(m) = n {
+            for s in sites.iter() { if let (Some(x), Some(c)) = (&s.clipped_input, s.clip) {
+                if m.schema().iter().any(|f| f.name() == format!("_CLIPPED_{}", x)) && !clipmaps.iter().any(|(_, _, y, _, _)| y == x) {
+                    if let Some(keys) = site_group_keys(rw.relation(), s) {
+                        clipmaps.push((set_noise(&render(n), 1e9), m.schema().iter().map(|f| f.name().to_string()).collect(), x.clone(), c, keys)); } else { st.bump("group_keys_not_identified"); } } } } } }
         for _ in 0..2 {
             let data = gen_dp_data(&mut r, &w.specs, 14, 4);
             // data may violate declared ranges and multiplicities: clipping must enforce the bound
-            let mut data = data;
-            if r.chance(1, 2) { if let Some(os) = data.get_mut("orders") { for o in os.iter_mut() { if r.chance(1, 3) { o[2] = SV::Real(*r.pick(&[5000.0, -700.0, 1e6])); } } } }
+            let mut data = if pinned { pinned_data() } else { data };
+            if !pinned && r.chance(1, 2) { if let Some(os) = data.get_mut("orders") { for o in os.iter_mut() { if r.chance(1, 3) { o[2] = SV::Real(*r.pick(&[5000.0, -700.0, 1e6])); } } } }
             let db = Db::new(&w.specs, &data);
+            for (text, names, x, c, keys) in clipmaps.iter() {
+                let Ok((_, rows)) = db.query(text) else { st.bump("clip_map_not_executable"); continue };
+                let (Some(pu), Some(xi), Some(wi)) = (col_index(names, "_PRIVACY_UNIT_"), col_index(names, x), col_index(names, &format!("_CLIPPED_{}", x))) else { continue };
+                let keyi: Vec<usize> = keys.iter().filter_map(|k| col_index(names, k)).collect();
+                if keyi.len() != keys.len() { st.bump("group_keys_not_identified"); continue; }
+                let mut per: BTreeMap<String, BTreeMap<String, (f64, f64)>> = BTreeMap::new();
+                for row in rows.iter() { if row[pu] == SV::Null { continue; }
+                    let e = per.entry(row[pu].canon()).or_default().entry(keyi.iter().map(|i| row[*i].canon()).collect::<Vec<_>>().join("|")).or_insert((0.0, 0.0));
+                    e.0 += row[xi].as_f64().unwrap_or(0.0); e.1 += row[wi].as_f64().unwrap_or(0.0); }
+                for (_, groups) in per.iter() { if cases.len() < cap_cases && groups.len() <= 30 && groups.values().all(|(a, b)| a.is_finite() && b.is_finite()) {
+                    st.bump(if groups.values().map(|(a, _)| a * a).sum::<f64>() > c * c { "clip_active_units" } else { "clip_inactive_units" });
+                    cases.push(format!("({}, [{}])", fq(*c), groups.values().map(|(a, b)| format!("({}, {})", fq(*a), fq(*b))).collect::<Vec<_>>().join("; "))); } }
+            }
             for (text, here) in inputs.iter() {
                 let (names, base) = match db.query(text) { Ok(x) => x, Err(e) => { st.bump("pre_noise_not_executable"); if st.notes.len() < 5 { st.notes.push(format!("{} :: {}", e, sql)); } continue; } };
                 st.evaluations += 1; st.distinct.insert(hash_str(&format!("{}{:?}", text, data)));
@@ -189,7 +229,7 @@ pub fn run_c01(outdir: &str, seed: u64, thorough: bool) -> serde_json::Value {
                         let norm = m.values().map(|(a, b)| (a - b) * (a - b)).sum::<f64>().sqrt();
                         st.bump("neighbour_comparisons");
                         if norm > c * (1.0 + 1e-9) + 1e-9 {
-                            st.violation(json!({"kind":"sensitivity-exceeds-clip-bound","class":shape,"query":sql,"column":s.column,"clip":c,"sigma":s.sigma,"l2_change":norm,"unit":u,
+                            st.violation(json!({"kind":"sensitivity-exceeds-clip-bound","class":shape,"query":sql,"column":s.column,"clip":c,"sigma":s.sigma,"l2_change":norm,"unit":u,"pre_noise_sql":text,"database":data.iter().map(|(k, v)| (k.clone(), v.iter().map(|row| row.iter().map(|x| x.json()).collect::<Vec<_>>()).collect::<Vec<_>>())).collect::<BTreeMap<_, _>>(),
                                 "groups": m.iter().take(5).map(|(k, v)| json!([k, v.0, v.1])).collect::<Vec<_>>()}));
                         }
                     }
@@ -199,6 +239,229 @@ pub fn run_c01(outdir: &str, seed: u64, thorough: bool) -> serde_json::Value {
         if made <= 2 { st.sample(json!({"query":sql,"sites":sites.iter().map(|s| json!({"column":s.column,"sigma":s.sigma,"clip":s.clip})).collect::<Vec<_>>()})); }
     }
     let mut out = st.to_json("DP-compiled aggregation queries (and LIMIT-windowed sums) x DpParameters; the input of every noise-adding map is executed on SQLite on a generated database (values possibly outside the declared ranges, several rows per unit) and on each neighbour obtained by deleting one unit; L2 norm over groups of the change of every noised column against the clipping constant read off the IR; distinct by (pre-noise query, database)");
-    out["shards"] = json!({});
+    let header = "From Coq Require Import QArith ZArith List. Import ListNotations.\nFrom QV Require Import Corr.Lib Corr.C01.\nOpen Scope Z_scope.";
+    let f = write_shards(outdir, "c01_clip", header, "c01_case", "check", &cases, 250);
+    out["shards"] = json!({"c01_clip": f});
+    out
+}
+
+// ---------------------------------------------------------------- C09
+/// an aggregation query over a trackable source with public-valued keys or none, with the reference
+/// query computing the same statistics directly (population variance for VAR / STD)
+fn gen_exact_query(r: &mut Rng) -> (String, String, Vec<String>, Vec<String>, Vec<String>) {
+    // (from, numeric columns, keys, from clause exposing the unit, unit expression)
+    let (from, nums, keys, ufrom, unit): (&str, Vec<&str>, Vec<&str>, &str, &str) = match r.below(5) {
+        0 => ("users AS t", vec!["t.age", "t.income", "t.score"], vec!["t.city"], "users AS t", "t.id"),
+        1 => ("orders AS t", vec!["t.amount"], vec!["t.status"], "orders AS t", "t.user_id"),
+        2 => ("items AS t", vec!["t.price", "t.qty"], vec!["t.qty"], "items AS t JOIN orders AS zz ON t.order_id = zz.id", "zz.user_id"),
+        3 => ("orders AS t JOIN users AS u ON t.user_id = u.id", vec!["t.amount", "u.age", "u.income"], vec!["u.city", "t.status"], "orders AS t JOIN users AS u ON t.user_id = u.id", "t.user_id"),
+        _ => ("items AS t JOIN orders AS o ON t.order_id = o.id", vec!["t.price", "o.amount", "t.qty"], vec!["o.status"], "items AS t JOIN orders AS o ON t.order_id = o.id", "o.user_id"),
+    };
+    let mut shared = vec![]; let mut rowsq: Vec<String> = vec![];
+    let mut items = vec![]; let mut ritems = vec![]; let mut kinds: Vec<String> = vec![]; let mut group = vec![];
+    if r.chance(2, 3) { let k = *r.pick(&keys); items.push(format!("{} AS k0", k)); ritems.push(format!("{} AS k0", k)); group.push(k.to_string()); kinds.push("key".into()); shared.push(String::new()); rowsq.push(String::new()); }
+    let wh = if r.chance(1, 3) { format!(" WHERE {} > {}", r.pick(&nums), r.range(0, 20)) } else { String::new() };
+    for i in 0..r.range(1, 4) {
+        let c = *r.pick(&nums);
+        let e = if r.chance(1, 4) { format!("{} + 1", c) } else { c.to_string() };
+        let (f, kind) = *r.pick(&[("COUNT", "count"), ("SUM", "sum"), ("AVG", "avg"), ("VARIANCE", "var"), ("STDDEV", "std"), ("COUNT", "count"), ("SUM", "sum")]);
+        let d = if r.chance(1, 5) && kind != "var" && kind != "std" { "DISTINCT " } else { "" };
+        items.push(format!("{}({}{}) AS a{}", f, d, e, i));
+        ritems.push(match kind { "var" | "std" => format!("AVG(({e}) * ({e})) - AVG({e}) * AVG({e}) AS a{i}", e = e, i = i), _ => format!("{}({}{}) AS a{}", f, d, e, i) });
+        kinds.push(if d.is_empty() { kind.to_string() } else { format!("{}-distinct", kind) });
+        // the (unit, value) rows behind the aggregate, for the model
+        rowsq.push(format!("SELECT {}{} AS u, {} AS v FROM {}{}", group.iter().map(|g| format!("{} AS k0, ", g)).collect::<String>(), unit, e, ufrom, wh));
+        // number of (group, value) pairs held by more than one unit: a DISTINCT aggregate is exact only without them
+        shared.push(if d.is_empty() { String::new() } else { format!("SELECT COUNT(*) FROM (SELECT 1 FROM {}{} GROUP BY {}{} HAVING COUNT(DISTINCT {}) > 1)", ufrom, wh,
+            group.iter().map(|g| format!("{}, ", g)).collect::<String>(), e, unit) });
+    }
+    let gb = if group.is_empty() { String::new() } else { format!(" GROUP BY {}", group.join(", ")) };
+    (format!("SELECT {} FROM {}{}{}", items.join(", "), from, wh, gb), format!("SELECT {} FROM {}{}{}", ritems.join(", "), from, wh, gb), kinds, shared, rowsq)
+}
+
+pub fn run_c09(outdir: &str, seed: u64, thorough: bool) -> serde_json::Value {
+    let _ = outdir;
+    let w = world();
+    let mut rng = Rng::new(seed ^ 0xC09);
+    let mut st = Stats::default();
+    let n = if thorough { 4000 } else { 150 };
+    let mut cases: Vec<String> = vec![]; let cap_cases = if thorough { 20000 } else { 1500 };
+    let mut made = 0; let mut attempts = 0;
+    while made < n && attempts < n * 30 {
+        attempts += 1;
+        let mut r = rng.fork();
+        let pinned = attempts == 1;
+        let (sql, refsql, kinds, shared, rowsq) = if pinned { let q = "SELECT SUM(DISTINCT t.score) AS a0, COUNT(t.score) AS a1 FROM users AS t".to_string();
+            (q.clone(), q, vec!["sum-distinct".to_string(), "count".to_string()],
+             vec!["SELECT COUNT(*) FROM (SELECT 1 FROM users AS t GROUP BY t.score HAVING COUNT(DISTINCT t.id) > 1)".to_string(), String::new()],
+             vec!["SELECT t.id AS u, t.score AS v FROM users AS t".to_string(), "SELECT t.id AS u, t.score AS v FROM users AS t".to_string()]) } else { gen_exact_query(&mut r) };
+        // multiplicity bound = size of the relation: no unit can exceed it, clipping stays inactive on in-range data
+        let p = DpParameters::new(*r.pick(&[0.1, 1.0, 5.0]), *r.pick(&[1e-5, 1e-3]), *r.pick(&[0.5, 0.1]), 1000.0, 1.0, 5);
+        let rel = match catch_unwind(AssertUnwindSafe(|| to_relation(&w, &sql))) { Ok(Ok(rel)) => rel, _ => continue };
+        let rw = match catch_unwind(AssertUnwindSafe(|| rel.rewrite_with_differential_privacy(&w.relations, None, w.privacy_unit.clone(), p.clone()))) { Ok(Ok(rw)) => rw, _ => { st.bump("rewrite_failed"); continue; } };
+        if noise_sites(rw.relation()).is_empty() { st.bump("no_noise_site"); continue; }
+        if !tau_sites(rw.relation()).is_empty() { st.bump("keys_need_thresholding_skipped"); continue; }
+        made += 1;
+        let text = set_noise(&render(rw.relation()), 0.0);
+        for _ in 0..2 {
+            // in-range data, every order / item resolving along the privacy-unit path
+            let mut data = if pinned { pinned_data() } else { gen_dp_data(&mut r, &w.specs, 12, 5) };
+            let ids: Vec<SV> = data["users"].iter().map(|x| x[0].clone()).collect();
+            if ids.is_empty() { continue; }
+            for o in data.get_mut("orders").unwrap().iter_mut() { o[1] = r.pick(&ids).clone(); }
+            let oids: Vec<SV> = data["orders"].iter().map(|x| x[0].clone()).collect();
+            if oids.is_empty() { data.get_mut("items").unwrap().clear(); } else { for it in data.get_mut("items").unwrap().iter_mut() { it[0] = r.pick(&oids).clone(); } }
+            // order ids unique, so that the join along the path does not duplicate rows
+            { let mut seen = BTreeSet::new(); data.get_mut("orders").unwrap().retain(|o| seen.insert(o[0].canon())); }
+            let db = Db::new(&w.specs, &data);
+            let (_, want) = match db.query(&refsql) { Ok(x) => x, Err(_) => { st.bump("reference_not_executable"); continue; } };
+            let (_, got) = match db.query(&text) { Ok(x) => x, Err(e) => { st.bump("rewritten_not_executable_on_sqlite"); if st.notes.len() < 5 { st.notes.push(format!("{} :: {}", e, sql)); } continue; } };
+            st.evaluations += 1; st.distinct.insert(hash_str(&format!("{}{:?}", sql, data)));
+            let keyed = kinds[0] == "key";
+            let key = |row: &Vec<SV>| if keyed { row[0].canon() } else { String::new() };
+            let gotm: BTreeMap<String, &Vec<SV>> = got.iter().map(|row| (key(row), row)).collect();
+            for row in want.iter() {
+                let Some(g) = gotm.get(&key(row)) else { st.violation(json!({"kind":"group-missing-from-dp-result","query":sql,"group":key(row)})); continue };
+                for (ci, kind) in kinds.iter().enumerate() {
+                    if kind == "key" { continue; }
+                    let kind = &kind[..];
+                    // the model on the rows behind this value
+                    if let (Some(ret), Ok((_, urows))) = (g[ci].as_f64(), db.query(&rowsq[ci])) {
+                        let mut uid: BTreeMap<String, i128> = BTreeMap::new();
+                        let mine: Vec<String> = urows.iter().filter(|x| !keyed || x[0].canon() == key(row)).map(|x| {
+                            let (u, v) = if keyed { (&x[1], &x[2]) } else { (&x[0], &x[1]) };
+                            let nu = uid.len() as i128; let u = *uid.entry(u.canon()).or_insert(nu);
+                            format!("({}, {})", coq_z(u), match v.as_f64() { Some(f) => format!("Some {}", fq(f)), None => "None".into() }) }).collect();
+                        if cases.len() < cap_cases && mine.len() <= 40 { let (base, d) = match kind.strip_suffix("-distinct") { Some(b) => (b, true), None => (kind, false) };
+                            let (a, std) = match base { "count" => ("ACount", false), "sum" => ("ASum", false), "avg" => ("AAvg", false), "var" => ("AVar", false), _ => ("AVar", true) };
+                            cases.push(format!("({}, {}, {}, [{}], {})", a, coq_bool(d), coq_bool(std), mine.join("; "), fq(ret))); }
+                    }
+                    let (a, b) = (row[ci].as_f64(), g[ci].as_f64());
+                    let (Some(mut a), Some(b)) = (a, b) else { if row[ci] == SV::Null { continue; } else { st.violation(json!({"kind":"dp-result-null","query":sql,"column":ci,"expected":row[ci].json()})); continue; } };
+                    if kind == "var" { a = a.max(0.0); } if kind == "std" { a = a.max(0.0).sqrt(); }
+                    st.bump(&format!("compared_{}", kind));
+                    if (a - b).abs() > 1e-6 * a.abs().max(b.abs()).max(1.0) {
+                        let class = if kind.ends_with("-distinct") && db.query(&shared[ci]).ok().and_then(|(_, rows)| rows.get(0).and_then(|x| x[0].as_f64())).map(|c| c > 0.0).unwrap_or(false)
+                            { "distinct-value-shared-by-units".to_string() } else { kind.to_string() };
+                        st.violation(json!({"kind":"dp-result-differs-without-noise-and-clipping","class":class,"query":sql,"group":key(row),"column":ci,"expected":a,"returned":b,
+                            "epsilon":p.epsilon,"tables":data.iter().map(|(k, v)| (k.clone(), v.len())).collect::<BTreeMap<_, _>>()}));
+                    }
+                }
+            }
+            // additional groups: public keys without data carry zero counts and sums
+            if keyed { for grow in got.iter() { if !want.iter().any(|row| key(row) == key(grow)) {
+                for (ci, kind) in kinds.iter().enumerate() { if (kind.starts_with("count") || kind.starts_with("sum")) && grow[ci].as_f64().map(|x| x.abs() > 1e-9).unwrap_or(false) {
+                    st.violation(json!({"kind":"extra-group-with-data","query":sql,"group":key(grow),"value":grow[ci].json()})); } } } } }
+        }
+        if made <= 2 { st.sample(json!({"query":sql,"reference":refsql})); }
+    }
+    let mut out = st.to_json("aggregation queries (count / sum / avg / variance / stddev and DISTINCT forms, nullable columns, joins along the privacy-unit path, public-valued keys or none) compiled with a multiplicity bound equal to the relation size; rewritten SQL with every Box-Muller factor replaced by 0 executed on SQLite over in-range databases, against a reference query (population variance for VAR / STD); distinct by (query, database)");
+    let header = "From Coq Require Import QArith ZArith List. Import ListNotations.\nFrom QV Require Import DP.Exact Corr.Lib Corr.C09.\nOpen Scope Z_scope.";
+    let f = write_shards(outdir, "c09_exact", header, "c09_case", "check", &cases, 250);
+    out["shards"] = json!({"c09_exact": f});
+    out
+}
+
+// ---------------------------------------------------------------- C04
+/// inverse of the standard normal CDF (Acklam), independent of statrs
+fn inv_norm(p: f64) -> f64 {
+    let a = [-3.969683028665376e+01, 2.209460984245205e+02, -2.759285104469687e+02, 1.383577518672690e+02, -3.066479806614716e+01, 2.506628277459239e+00];
+    let b = [-5.447609879822406e+01, 1.615858368580409e+02, -1.556989798598866e+02, 6.680131188771972e+01, -1.328068155288572e+01];
+    let c = [-7.784894002430293e-03, -3.223964580411365e-01, -2.400758277161838e+00, -2.549732539343734e+00, 4.374664141464968e+00, 2.938163982698783e+00];
+    let d = [7.784695709041462e-03, 3.224671290700398e-01, 2.445134137142996e+00, 3.754408661907416e+00];
+    if p < 0.02425 { let q = (-2.0 * p.ln()).sqrt(); (((((c[0]*q+c[1])*q+c[2])*q+c[3])*q+c[4])*q+c[5]) / ((((d[0]*q+d[1])*q+d[2])*q+d[3])*q+1.0) }
+    else if p <= 1.0 - 0.02425 { let q = p - 0.5; let r = q*q; (((((a[0]*r+a[1])*r+a[2])*r+a[3])*r+a[4])*r+a[5])*q / (((((b[0]*r+b[1])*r+b[2])*r+b[3])*r+b[4])*r+1.0) }
+    else { let q = (-2.0 * (1.0 - p).ln()).sqrt(); -(((((c[0]*q+c[1])*q+c[2])*q+c[3])*q+c[4])*q+c[5]) / ((((d[0]*q+d[1])*q+d[2])*q+d[3])*q+1.0) }
+}
+
+pub fn run_c04(outdir: &str, seed: u64, thorough: bool) -> serde_json::Value {
+    let _ = outdir;
+    let w = world();
+    let mut rng = Rng::new(seed ^ 0xC04);
+    let mut st = Stats::default();
+    let n = if thorough { 2500 } else { 100 };
+    let templates: Vec<(&str, &str)> = vec![
+        // (query, the (unit, key) pairs of the rows reaching the aggregation)
+        ("SELECT t.order_id AS k, COUNT(t.price) AS n FROM items AS t GROUP BY t.order_id", "SELECT o.user_id AS u, i.order_id AS k FROM items AS i JOIN orders AS o ON i.order_id = o.id JOIN users AS us ON o.user_id = us.id"),
+        ("SELECT t.id AS k, SUM(t.amount) AS s FROM orders AS t GROUP BY t.id", "SELECT o.user_id AS u, o.id AS k FROM orders AS o JOIN users AS us ON o.user_id = us.id"),
+        ("SELECT t.amount AS k, COUNT(t.id) AS n FROM orders AS t GROUP BY t.amount", "SELECT o.user_id AS u, o.amount AS k FROM orders AS o JOIN users AS us ON o.user_id = us.id"),
+        ("SELECT t.income AS k, COUNT(t.id) AS n FROM users AS t GROUP BY t.income", "SELECT us.id AS u, us.income AS k FROM users AS us"),
+        ("SELECT t.status AS p, t.amount AS k, COUNT(t.id) AS n FROM orders AS t GROUP BY t.status, t.amount", "SELECT o.user_id AS u, o.amount AS k FROM orders AS o JOIN users AS us ON o.user_id = us.id"),
+        ("SELECT t.amount + 1 AS k, COUNT(t.id) AS n FROM orders AS t WHERE t.amount > 15 GROUP BY t.amount + 1", "SELECT o.user_id AS u, o.amount + 1 AS k FROM orders AS o JOIN users AS us ON o.user_id = us.id WHERE o.amount > 15"),
+    ];
+    let mut cases: Vec<String> = vec![];
+    for i in 0..n {
+        let mut r = rng.fork();
+        let (sql, rowsq) = templates[i % templates.len()];
+        let cu = *r.pick(&[1u64, 2, 5]);
+        let p = DpParameters::new(*r.pick(&[0.5, 1.0, 5.0, 20.0]), *r.pick(&[1e-6, 1e-3, 0.3, 0.9]), *r.pick(&[0.5, 0.1, 0.9, 1.0]), 1000.0, 1.0, cu);
+        let rel = match catch_unwind(AssertUnwindSafe(|| to_relation(&w, sql))) { Ok(Ok(rel)) => rel, _ => continue };
+        let rw = match catch_unwind(AssertUnwindSafe(|| rel.rewrite_with_differential_privacy(&w.relations, None, w.privacy_unit.clone(), p.clone()))) { Ok(Ok(rw)) => rw, Ok(Err(_)) => { st.bump("rewrite_err"); continue; } Err(_) => { st.bump("rewrite_panicked"); continue; } };
+        let taus = tau_sites(rw.relation());
+        if taus.len() != 1 { st.bump("no_single_tau_site"); continue; }
+        let (tau, sigma) = (taus[0].tau, taus[0].sigma.unwrap_or(f64::NAN));
+        // the threshold in the plan is at least the tau of the share reserved for the key release
+        let (e, d) = (p.epsilon * p.tau_thresholding_share, p.delta * p.tau_thresholding_share);
+        let sig_want = (2.0 * (1.25f64 / d).ln()).sqrt() / e * (cu as f64).sqrt();
+        let q = (1.0 - d).powf(1.0 / cu as f64);
+        let tau_want = 1.0 + sig_want * inv_norm(q);
+        st.evaluations += 1;
+        if !(tau >= tau_want - 1e-6 * tau_want.abs().max(1.0)) || !(sigma >= sig_want * (1.0 - 1e-9)) {
+            st.violation(json!({"kind":"threshold-below-required-tau","query":sql,"epsilon":p.epsilon,"delta":p.delta,"share":p.tau_thresholding_share,"cu":cu,"tau_in_plan":tau,"tau_required":tau_want,"sigma_in_plan":sigma,"sigma_required":sig_want}));
+        }
+        if tau < 1.0 { st.violation(json!({"kind":"threshold-below-one","class":"delta-share-above-one-half","query":sql,"epsilon":p.epsilon,"delta":p.delta,"share":p.tau_thresholding_share,"cu":cu,"tau_in_plan":tau})); }
+        let base = render(rw.relation());
+        for z in [0.0f64, -1.0, 1.5] {
+            let mut data = gen_dp_data(&mut r, &w.specs, 14, 5);
+            // keys shared by several units, keys owned by one unit with many rows
+            let amounts = [10.0, 20.0, 30.0];
+            for o in data.get_mut("orders").unwrap().iter_mut() { if r.chance(2, 3) { o[2] = SV::Real(*r.pick(&amounts)); } }
+            { let mut seen = BTreeSet::new(); data.get_mut("orders").unwrap().retain(|o| seen.insert(o[0].canon())); }
+            let db = Db::new(&w.specs, &data);
+            let text = set_noise(&base, z);
+            let (names, rows) = match db.query(&text) { Ok(x) => x, Err(e) => { st.bump("rewritten_not_executable_on_sqlite"); if st.notes.len() < 5 { st.notes.push(format!("{} :: {}", e, sql)); } continue; } };
+            let ki = col_index(&names, "k").unwrap();
+            let released: BTreeSet<String> = rows.iter().map(|row| row[ki].canon()).collect();
+            let (_, urows) = match db.query(rowsq) { Ok(x) => x, Err(_) => continue };
+            let mut holders: BTreeMap<String, BTreeSet<String>> = BTreeMap::new();
+            for row in urows.iter() { if row[0] != SV::Null { holders.entry(row[1].canon()).or_default().insert(row[0].canon()); } }
+            let units_of: BTreeMap<String, f64> = holders.iter().map(|(k, v)| (k.clone(), v.len() as f64)).collect();
+            // the same rows for the model, units and keys numbered
+            {
+                let mut uid: BTreeMap<String, i128> = BTreeMap::new(); let mut kid: BTreeMap<String, i128> = BTreeMap::new();
+                let mut pairs = vec![];
+                for row in urows.iter() { if row[0] == SV::Null { continue; }
+                    let nu = uid.len() as i128; let u = *uid.entry(row[0].canon()).or_insert(nu);
+                    let nk = kid.len() as i128; let k = *kid.entry(row[1].canon()).or_insert(nk);
+                    pairs.push((u, k)); }
+                let rel: Vec<i128> = released.iter().map(|k| kid.get(k).cloned().unwrap_or(-1)).collect();
+                // a float comparison within rounding distance of the threshold is not compared
+                let borderline = units_of.values().any(|n| ((n + sigma * z) - tau).abs() < 1e-9 * tau.abs().max(1.0));
+                if !borderline && sigma.is_finite() && tau.is_finite() {
+                    cases.push(format!("({}%nat, {}, {}, {}, {}, {})", cu, fq(tau), fq(sigma), fq(z),
+                        coq_list(&pairs, |(u, k)| format!("({}, {})", coq_z(*u), coq_z(*k))), coq_list(&rel, |k| coq_z(*k))));
+                }
+            }
+            // how many distinct keys each unit holds: capping can only matter above Cu
+            st.distinct.insert(hash_str(&format!("{}{:?}{}", sql, data, z)));
+            for k in released.iter() {
+                let nk = units_of.get(k).cloned().unwrap_or(0.0);
+                st.bump("released_keys");
+                // necessary condition: even without capping the noisy count must exceed tau
+                if !(nk + sigma * z > tau - 1e-9) {
+                    st.violation(json!({"kind":"key-released-below-threshold","query":sql,"key":k,"distinct_units":nk,"noise":sigma * z,"tau":tau,"cu":cu,"delta":p.delta,"share":p.tau_thresholding_share}));
+                }
+                if nk <= 1.0 && z <= 0.0 {
+                    st.violation(json!({"kind":"single-unit-key-released-without-positive-noise","class": if tau < 1.0 { "delta-share-above-one-half" } else { "other" },"query":sql,"key":k,"distinct_units":nk,"tau":tau,"delta":p.delta,"share":p.tau_thresholding_share}));
+                }
+            }
+            st.bump(if released.is_empty() { "nothing_released" } else { "some_released" });
+        }
+        if i < 2 { st.sample(json!({"query":sql,"tau":tau,"sigma":sigma,"cu":cu,"epsilon":p.epsilon,"delta":p.delta,"share":p.tau_thresholding_share})); }
+    }
+    let header = "From Coq Require Import QArith ZArith List. Import ListNotations.\nFrom QV Require Import Corr.Lib Corr.C04.\nOpen Scope Z_scope.";
+    let f = write_shards(outdir, "c04_release", header, "c04_case", "check", &cases, if thorough { 400 } else { 80 });
+    let mut out = st.to_json("grouped queries whose keys are private-valued (one with a mixed public / private key, one computed key under a filter) x DpParameters (epsilon, delta up to 0.9, share up to 1, Cu in {1,2,5}); tau and sigma read off the plan against an independent recomputation (own inverse normal CDF); rewritten SQL executed on SQLite with the noise factor fixed to 0, -1 and 1.5 over databases with keys shared by several units and keys owned by one unit; released keys against the distinct-unit counts; distinct by (query, database, noise)");
+    out["shards"] = json!({"c04_release": f});
     out
 }
